@@ -117,6 +117,15 @@ Lemma gen_memo_server_refuted :
     = [REndpoint 1 a; RLookupErr; REndpoint 2 b].
 Proof. vm_compute. split; reflexivity. Qed.
 
+(** NewServer copies what it needs out of its config parameter: the Server
+    has no field of type *ServerConfig and nothing stores the parameter itself,
+    so what the caller does with its ServerConfig value afterwards cannot
+    change the routing ([lookup] in the model is a fixed function per server
+    between EvLookup events, which are changes of the configured function's
+    answers, not of the caller's struct). *)
+Lemma gen_server_config_is_copied : gen_server_config_copied = true.
+Proof. reflexivity. Qed.
+
 (** Server.endpoint reads the registry by one map index on the name it is
     given; no scan, no normalisation. *)
 Lemma gen_endpoint_lookup_exact : gen_endpoint_lookup = RegExactIndex.
